@@ -45,7 +45,10 @@ class Model:
             self.log("groupby-iter", None, keys=list(it.keys), key_terms=kts, src_ctx=f.ctx(), dst=g.obj)
             return PyTuple([gk[0] if len(gk) == 1 else PyTuple(list(gk)), g])
         if hasattr(it, "row_frame"):
-            return Obj("row", attrs={"__row_of__": ("row",), "__frame__": it.row_frame})
+            row = Obj("row", attrs={"__row_of__": ("row",), "__frame__": it.row_frame})
+            if getattr(it, "pairs", False):
+                return PyTuple([("at", ("row",), self.ops.index_term(it.row_frame)), row])
+            return row
         if isinstance(it, tuple) and it and it[0] == "dict_items":
             return PyTuple([("key", it[1]), ("value", it[1])])
         if isinstance(it, tuple) and it and it[0] == "enumerate":
